@@ -65,6 +65,10 @@ type MessageStreamRequest struct {
 	// do this as a number to avoid issues & cross-platform/language
 	// inconsistencies with duration serialization
 	DelaySeconds float64 `json:"delaySeconds"`
+	// Requeue lists deliveries whose deadline is set to zero (how a gRPC client
+	// nacks) in a request that extends others: they must not get the (max) delay
+	// of the rest
+	Requeue []uuid.UUID `json:"requeue,omitempty"`
 }
 
 type pendingMessage struct {
@@ -169,6 +173,17 @@ func (ms *MessageStreamer) Go(ctx context.Context, conn StreamConnection) error 
 					delete(pending, id)
 				}
 				for _, id := range msg.Nack {
+					delete(pending, id)
+				}
+				tryWake()
+				mu.Unlock()
+			}
+			if len(msg.Requeue) != 0 {
+				if err := ms.doDelay(ctx, msg.Requeue, 0); err != nil {
+					return err
+				}
+				mu.Lock()
+				for _, id := range msg.Requeue {
 					delete(pending, id)
 				}
 				tryWake()
